@@ -20,8 +20,12 @@ SPEC = {
                   "C32_crash_inv_partial + C32_main_partial prove, for xattr stamps and file outputs, that every crash state satisfies C01's "
                   "history invariant, so any later build equals the clean build (conditional like C01 on injective hash pre-images); at this "
                   "strength the property is REFUTED for fallback records (xattrs off / symlink outputs) and for directory outputs by two "
-                  "kernel-checked witnesses replayed on the binary (known findings). C32_interleaving: concurrent build steps of different "
-                  "targets reduce to per-target cuts. C32_writeFile_atomic: every cut of fs.WriteFile leaves the destination old or complete. "
+                  "kernel-checked witnesses replayed on the binary (known findings). C32_recover_repeated: any number of kills in a row, each "
+                  "attempt starting from what the previous one left, still recover. C32_fixed_crash_inv / C32_fixed_metadata_never_truncated: "
+                  "the proposed repair (drop every declared output's stamp before anything destructive) restores the history invariant at "
+                  "every cut in EVERY stamp mode and for directories and closes the metadata failure. C32_interleaving: concurrent build "
+                  "steps of different targets reduce to per-target cuts. C32_writeFile_atomic: every cut of fs.WriteFile leaves the "
+                  "destination old or complete. "
                   "Left out of the model: cache RETRIEVAL (C12/C02), targets without outputs, the post-build function's own effect, remote "
                   "execution, filegroups, optional outputs / output directories, the copy fallback of renameFile.",
     "technique": "Lean 4 invariant proof over every prefix of an operation-list model (projection of the list onto one output's files, "
@@ -35,7 +39,9 @@ SPEC = {
         "fs.WriteFile: MkdirAll/CreateTemp(dir of destination)/Copy/Close/Chmod/renameFile(temp, dest))",
         "correspondence harness/cmd/c32 vs Driver/C32.lean: hook-point TRACE of the interrupted build step, the target's files (metadata "
         "absent/empty/partial/full, each output's content class and stamp class) after SIGKILL at hook point k (+ j emulated inner steps), "
-        "and what the next build does (skip / rebuild / fail+second attempt, final tree clean or stale); fs.WriteFile destination and "
+        "and what the next build does (skip / rebuild / fail+second attempt, final tree clean or stale), also after a SECOND kill of "
+        "the recovery attempt (crash2), file / directory / symlink outputs, xattr and fallback modes, with and without a dir cache and a "
+        "post-build function; fs.WriteFile destination and "
         "temporary after the reader died at byte N (in-process panic or SIGKILL of a re-executed child) for every N; encoding/gob on "
         "every strict prefix of an encoded BuildMetadata; truncated fallback records of every length",
         "direct oracle: tree after the recovery build == clean build of the same sources in a fresh directory (HOME, XDG_*, cache dir in "
@@ -59,5 +65,20 @@ SPEC = {
                    "truncated-metadata-fails-next-build (same tree; first recovery build fails, second succeeds).",
 }
 MUTATIONS = """
-(filled in after the dry-runs)
+Dry-runs on scratch copies (VERIF_REPO=/var/tmp/mC32_n ./check C32 quick), all compile with and without -tags verif:
+M1 buildTarget: calculateAndCheckRuleHash (-> writeRuleHash) moved BEFORE moveOutputs (stamp before move)
+   -> exit 1: C32_facts_ok fails (buildPhases = [metadata, stamp, move, cache]); correspondence disagrees (30 lines); direct oracle:
+      every fresh build fails ("failed to calculate hash": outputs not there yet) -> VIOLATION with the op line as replay.
+M2 readRuleHashFromXattrs: the `h != nil && !bytes.Equal(h, b)` (outputs disagree) return removed
+   -> exit 1: C32_facts_ok fails (readLoop); oracle: `fbtrunc ff 50` (truncated record on output 0, full on output 1) is trusted
+      (class truncated-fallback-record-trusted) and a reverted tree after a kill between the two stamps is trusted
+      (class recovered-differs-from-clean); 12 correspondence disagreements.
+M3 fs.WriteFile: temp file replaced by os.Create(to) (writes in place)
+   -> exit 1: C32_facts_ok fails (writeFileCalls / temp in destination dir); oracle class writefile-destination-torn for every N
+      (57 oracle failures), 23 disagreements.
+M4 needsBuilding: the "every output exists" loop removed
+   -> exit 1: C32_facts_ok fails (needsBuildingChecksEveryOutput); oracle: kill between RemoveAll and Rename in fallback mode
+      is trusted without the output (classes recovered-differs-from-clean, recovery-build-fails-persistently).
+M5 harmless: StoreTargetMetadata's local `filename` renamed, two independent assignments in moveOutputs swapped
+   -> exit 0, 31/31 obligations, no disagreement.
 """
